@@ -12,6 +12,24 @@ ENGINES = [
      'kind_free_text': 'preemption-bounded controlled scheduler over compiler-inserted load/store hooks with conflict (race) monitor'},
 ]
 TEXT = {
+    'C05': {
+        'level': 'Bounded-exhaustive exploration of the real parser: every string of <=N code units over a 31-unit JSON alphabet (N=5/6), every string of <=M tokens over 27 JSON tokens plus all code-unit truncations (M=4/5), and nesting families up to depth 4096, each parsed in 4 character widths from an exact-size, unterminated buffer. Any access outside the text is fatal (ASan redzone / PROT_NONE page); hangs are caught by a progress watchdog; the result must be Undefined or free of Undefined nodes; the allocation ledger must balance.',
+        'design_ref': 'DESIGN.md §5 C05',
+        'note': 'Covers texts inside the stated bounds only; reads before the buffer are visible only in the ASan variant; UBSan groups bounds,null,pointer-overflow,alignment,object-size,integer-divide-by-zero on.',
+        'technique': 'bounded-exhaustive input enumeration (prefix-tree walk) on the implementation under ASan/guard pages',
+    },
+    'C06': {
+        'level': 'All RFC 8259 container documents with <=K nodes (depth<=3, arity<=3, all duplicate-key patterns) x whitespace policies, plus every scalar of large string/numeral pools (all escape forms, all planes, 64-bit boundaries, extremes) in every syntactic context, parsed in UTF-8/16/32 and compared structurally with an independent strict reference parser (itself cross-checked against python json.loads on each run).',
+        'design_ref': 'DESIGN.md §5 C06',
+        'note': 'Trusted: ref/json_ref.hpp (+python cross-check), glibc strtod. Numerals beyond the double range are not generated.',
+        'technique': 'bounded-exhaustive grammar enumeration with differential reference parser',
+    },
+    'C07': {
+        'level': 'For every generated valid container document: all proper prefixes (code point and UTF-8 code-unit cuts), 12 non-whitespace suffixes, every closing bracket swapped or removed must yield Undefined; plus every string of <=N units over the JSON alphabet: any accepted text must be a complete tree that survives Stringify+Parse.',
+        'design_ref': 'DESIGN.md §5 C07',
+        'note': 'Lenient number forms (+1, 0x1F, .5) are complete values for this parser and outside the statement\'s family.',
+        'technique': 'bounded-exhaustive enumeration of rejection families on the implementation',
+    },
     'C20': {
         'level': 'Complete enumeration: all 1,112,064 Unicode scalar values x 4 character types x {direct encoder, \\u escapes in upper/lower/mixed hex, alone and embedded, through JSON::Parse and JSONUtils::UnEscape} are executed on the implementation and compared unit-for-unit with a reference encoder. The space is finite and fully covered, so inside the stated forms this is a decision, not a sample.',
         'design_ref': 'DESIGN.md §5 C20',
